@@ -9,7 +9,7 @@ from vt.mon import contracts
 PROP = 'C10'
 TITLE = 'PDA normal forms and PDA -> CFG'
 SHARDS = {'quick': 16, 'thorough': 32}
-TIMEOUT = {'quick': 900, 'thorough': 3600}
+TIMEOUT = {'quick': 420, 'thorough': 3600}
 REQUIRED = ['pda_to_one_accepting_state_in_place', 'pda_to_push_pop', 'pda_to_accept_on_empty_stack', 'pda_to_cfg', 'pda_to_cfg(accepts_on_empty_stack=True)']
 EXHAUSTIVE_NOTE = 'no complete sub-space: PDAs are sampled (seeded random + named families + shipped examples)'
 RULE = ('cases are PDAs: seeded random (<=4 states, <=2 input, <=3 stack symbols, <=8 moves of kinds push/pop/replace/no-op, 0..3 accepting states), named families '
